@@ -125,7 +125,17 @@ def run(cx):
                         ok = any(g.root[0] == "discr" and g.root[1] == ("call", fc[0].q, fc[0].b, ()) and discr_variants(m, g) == {"Err"} for g in gs)
     cx.ob("C17.R3", "load_proc:missing->None", ok, "a process row that cannot be found loads as None", fc[0].loc if fc else lp.loc())
     cp = m.one(r"^acts::cache::cache::Cache::proc$")
-    calls = [x.q.split("::")[-1] for x in cp.calls() if x.q.endswith("Cache::get_proc") or x.q.endswith("::load_proc")]
+    # the memory lookup is `get_proc(pid)` or, written out, `self.procs.get(pid)` on the moka cache field
+    calls = []
+    for x in cp.calls():
+        if x.q.endswith("Cache::get_proc"):
+            calls.append("get_proc")
+        elif re.search(r"moka::sync::Cache::<.*>::get(::<.*>)?$|moka::sync::cache::Cache::<.*>::get(::<.*>)?$", x.q) and x.args:
+            r_ = pa.root(cp, x.args[0])
+            if r_[0] == "param" and r_[1] == 1 and [y for y in r_[3] if y != "*"][-1:] == ["procs"]:
+                calls.append("get_proc")
+        elif x.q.endswith("::load_proc"):
+            calls.append("load_proc")
     cx.ob("C17.R3", "cache:lookup", calls[:2] == ["get_proc", "load_proc"], "Cache::proc looks in the cache and then in the store only (found %s)" % calls, cp.loc())
     rd = m.one(r"^acts::scheduler::runtime::Runtime::do_action$")
     pc = [x for x in rd.calls() if x.q.endswith("Process::do_action")]
